@@ -1,15 +1,15 @@
 #!/bin/bash
 # seedrun2.sh <patch.diff> <tier> <property>... : like seedrun.sh but on a scratch worktree of /repo
-# (/tmp/repo-seed) and this scratch copy of /verif, so that /repo and /verif stay untouched.
+# (/tmp/repo-seed3) and this scratch copy of /verif, so that /repo and /verif stay untouched.
 set -u
 patch=$1; tier=$2; shift 2
-R=/tmp/repo-seed
+R=/tmp/repo-seed3
 if [ ! -d $R ]; then git -C /repo worktree add --detach $R HEAD -q || exit 2; fi
 cd $R || exit 2
 git checkout -q --detach $(git -C /repo rev-parse HEAD) 2>/dev/null
 git checkout -q -- . ; git clean -fdq
 git apply "$patch" || { echo "patch does not apply"; exit 2; }
 for p in "$@"; do
-  (cd /tmp/vseed && VERIF_REPO=$R python3 check.py "$p" "$tier" 2>&1 | grep -v "^KNOWN-FINDING" | tail -4 | cut -c1-600; echo "exit(${p})=${PIPESTATUS[0]}")
+  (cd /tmp/vseed3 && VERIF_REPO=$R python3 check.py "$p" "$tier" 2>&1 | grep -v "^KNOWN-FINDING" | tail -4 | cut -c1-600; echo "exit(${p})=${PIPESTATUS[0]}")
 done
 git checkout -q -- . ; git clean -fdq
